@@ -338,9 +338,12 @@ class _FuncAnalysis:
             base = self.vals(t.value, env)
             self.vals(t.slice, env)
             self.mutate(base, st, 'item store')
+            fld = '[*]'
+            if isinstance(t.slice, ast.Constant) and isinstance(t.slice.value, str):
+                fld = '[k:' + t.slice.value + ']'
             for b in base:
                 if b[0] == 'fresh':
-                    self.heap.setdefault(b, {}).setdefault('[*]', set()).update(v)
+                    self.heap.setdefault(b, {}).setdefault(fld, set()).update(v)
                 elif b[0] == 'param':
                     self.sum.param_stores.setdefault((b, '[*]'), set()).update(v)
 
@@ -365,7 +368,9 @@ class _FuncAnalysis:
             if s[0] in ('param', 'global'):
                 out.add(ext_path(s, '[*]'))
             elif s[0] == 'fresh':
-                out |= self.heap.get(s, {}).get('[*]', set())
+                for fld, vs in self.heap.get(s, {}).items():
+                    if fld == '[*]' or fld.startswith('[k:'):
+                        out |= vs
             elif s[0] == 'default':
                 out.add(s)
         return out
@@ -445,6 +450,14 @@ class _FuncAnalysis:
         if isinstance(n, ast.Subscript):
             base = self.vals(n.value, env)
             self.vals(n.slice, env)
+            if isinstance(n.slice, ast.Constant) and isinstance(n.slice.value, str):
+                out = set()
+                for b in base:
+                    if b[0] == 'fresh' and ('[k:' + n.slice.value + ']') in self.heap.get(b, {}):
+                        out |= self.heap[b]['[k:' + n.slice.value + ']'] | self.heap[b].get('[*]', set())
+                    else:
+                        out |= self.elems({b})
+                return out
             out = self.elems(base)
             if isinstance(n.slice, ast.Slice) or (isinstance(n.slice, ast.Tuple) and any(
                     isinstance(e, ast.Slice) for e in n.slice.elts)) or isinstance(n.slice, ast.Name):
@@ -464,7 +477,10 @@ class _FuncAnalysis:
                 vv = self.vals(v, env)
                 if k is None:
                     vv = self.elems(vv)
-                self.heap[s].setdefault('[*]', set()).update(vv)
+                if isinstance(k, ast.Constant) and isinstance(k.value, str):
+                    self.heap[s].setdefault('[k:' + k.value + ']', set()).update(vv)
+                else:
+                    self.heap[s].setdefault('[*]', set()).update(vv)
             return {s}
         if isinstance(n, (ast.ListComp, ast.SetComp, ast.GeneratorExp, ast.DictComp)):
             e2 = dict(env)
